@@ -13,7 +13,7 @@ use vaporetto_rules::{
 
 use crate::cli::{run_tool, scratch_dir, write_zst};
 use crate::model::AbsModel;
-use crate::util::{hex, hexs, unhexs, Rng};
+use crate::util::{catch, hex, hexs, unhexs, Rng};
 
 fn lines_of(stdin: &str) -> Vec<String> {
     // std::io::BufRead::lines
@@ -228,7 +228,10 @@ pub fn run(toks: &[&str], fails: &mut Vec<(String, String)>) -> String {
     let stdout = String::from_utf8_lossy(&o.stdout).to_string();
     if !eval {
         if c20 {
-            match expected_predict(&m, flags, ws, &stdin) {
+            match catch(|| expected_predict(&m, flags, ws, &stdin)).unwrap_or_else(|e| {
+                fails.push(("C20".into(), format!("the library pipeline itself panicked for predict {fl} on {stdin:?}: {e}")));
+                Err(e)
+            }) {
                 Ok(exp) => {
                     if code != 0 {
                         fails.push(("C20".into(), format!("predict {fl} exited with {code} on input {stdin:?}: {}", o.stderr.lines().rev().find(|l| l.contains("panicked") || l.contains("Error")).unwrap_or(""))));
@@ -241,7 +244,7 @@ pub fn run(toks: &[&str], fails: &mut Vec<(String, String)>) -> String {
         }
         format!("{code}:{}", if stdout.is_empty() { String::new() } else { hex(stdout.as_bytes()) })
     } else {
-        match expected_evaluate(&m, flags, ws, &stdin) {
+        match catch(|| expected_evaluate(&m, flags, ws, &stdin)).unwrap_or_else(Err) {
             Ok((text, counts)) => {
                 if c20 && (code != 0 || stdout != text) {
                     fails.push(("C20".into(), format!("evaluate {fl} on {stdin:?} printed {stdout:?} (exit {code}), the library's predictions give {text:?}")));
